@@ -97,3 +97,15 @@ Inductive exn := InvalidOperation | ValueError | TypeError | IndexError | KeyErr
                | InvalidCodePath | OtherError.
 Inductive res (A : Type) := Ok (a : A) | Rejected (e : exn) | Crash (e : exn) | OutOfFuel.
 Arguments Ok {A} a. Arguments Rejected {A} e. Arguments Crash {A} e. Arguments OutOfFuel {A}.
+
+(* s.lower() == lit for a lower-case ASCII literal: `tbl` lists every (c, l) with chr(c).lower() == chr(l) and c <> l for
+   the characters l of the literal (generated from the running interpreter, which also checks that no multi-character
+   lowering contains a character of the literal) *)
+Definition lower_matches (tbl : list (N * N)) (c l : char) : bool :=
+  (N.eqb c l || existsb (fun p => N.eqb (fst p) c && N.eqb (snd p) l) tbl)%bool.
+Fixpoint py_lower_eq (tbl : list (N * N)) (s lit : str) : bool :=
+  match s, lit with
+  | [], [] => true
+  | c :: s', l :: lit' => (lower_matches tbl c l && py_lower_eq tbl s' lit')%bool
+  | _, _ => false
+  end.
